@@ -102,3 +102,95 @@ package segment
 //@   loop 1 invariant forall j int :: {offsets[j]} 0 <= j && j <= rangeindex ==> LE32(buf, 8 + 4*j) == offsets[j]
 //@   loop 1 invariant unchanged_outside(buf, 0, 8 + 4*len(offsets) + padLen_spec(4*len(offsets)))
 //@   loop 1 decreases len(offsets) - rangeindex
+
+// ---------------------------------------------------------------------------
+// writer.go — writer representation invariant and the append path
+// ---------------------------------------------------------------------------
+
+//@ atomic Writer.offsets []uint32
+
+//@ func (*Writer).getOffsets
+//@   inline
+
+//@ func (*Writer).ensureBufCap
+//@   props C09 C10 C15
+//@   inline
+//@   requires 0 <= extraLen && extraLen <= 0x200000000
+//@   assigns w.writer.commitBuf
+//@   ensures len(w.writer.commitBuf) == old(len(w.writer.commitBuf))
+//@   ensures cap(w.writer.commitBuf) >= len(w.writer.commitBuf) + extraLen
+//@   ensures eqbytes(w.writer.commitBuf, 0, old(w.writer.commitBuf), 0, len(w.writer.commitBuf))
+//@   ensures unchanged(old(w.writer.commitBuf), 0, len(w.writer.commitBuf))
+//@   loop 1 invariant newSize >= 65536 && newSize <= 0x40000000000 && newSize % 65536 == 0
+//@   loop 1 decreases needCap - newSize
+
+//@ -- Representation invariant of the tail writer (single writer, under the WAL write lock).
+//@ predicate WInv(w) = w.info.BaseIndex >= 1 && w.info.BaseIndex <= 0x7fffffff00000000
+//@    && len(av(w.offsets)) <= 0x20000000
+//@    && (w.commitIdx == 0 || (w.commitIdx >= w.info.BaseIndex && w.commitIdx - w.info.BaseIndex < uint64(len(av(w.offsets)))))
+//@    && w.writer.crc == crc(0, w.writer.commitBuf, 0, len(w.writer.commitBuf))
+//@    && w.wf != nil
+
+//@ func (*Writer).appendFrame
+//@   props C09 C10 C15
+//@   requires len(data) <= 0xffffffff && int(fh.len) == len(data)
+//@   assigns w.writer.commitBuf, w.writer.crc, w.writer.commitBuf[len(w.writer.commitBuf):cap(w.writer.commitBuf)]
+//@   ensures result1 == nil
+//@   ensures result0 == old(len(w.writer.commitBuf))
+//@   ensures len(w.writer.commitBuf) == old(len(w.writer.commitBuf)) + 8 + len(data) + padLen_spec(len(data))
+//@   ensures eqbytes(w.writer.commitBuf, 0, old(w.writer.commitBuf), 0, old(len(w.writer.commitBuf)))
+//@   ensures[C09.appendframe-header] w.writer.commitBuf[result0] == fh.typ && w.writer.commitBuf[result0+1] == 0 && w.writer.commitBuf[result0+2] == 0 && w.writer.commitBuf[result0+3] == 0
+//@      && LE32(w.writer.commitBuf, result0+4) == ite(fh.typ == FrameCommit, fh.crc, fh.len)
+//@   ensures[C09.appendframe-payload] eqbytes(w.writer.commitBuf, result0+8, data, 0, len(data))
+//@   ensures[C09.appendframe-padding] zero(w.writer.commitBuf, result0+8+len(data), len(w.writer.commitBuf))
+//@   ensures[C09.appendframe-crc] w.writer.crc == crc(old(w.writer.crc), w.writer.commitBuf, old(len(w.writer.commitBuf)), len(w.writer.commitBuf))
+
+//@ -- Bounds under which uint32 file offsets are exact (segment files are < 4 GiB).
+//@ predicate WFits(w, extra) = uint64(w.writer.writeOffset) + uint64(len(w.writer.commitBuf)) + uint64(extra) <= 0xffffffff
+
+//@ func (*Writer).flush
+//@   props C01 C09 C10
+//@   requires w.wf != nil && WFits(w, 0)
+//@   assigns w.writer.writeOffset, reslice(w.writer.commitBuf), w.wf.dirty
+//@   ensures result == nil ==> w.writer.writeOffset == old(w.writer.writeOffset) + uint32(old(len(w.writer.commitBuf))) && len(w.writer.commitBuf) == 0
+//@   ensures result != nil ==> w.writer.writeOffset == old(w.writer.writeOffset) && sameslice(w.writer.commitBuf, old(w.writer.commitBuf))
+//@   ensures cap(w.writer.commitBuf) == old(cap(w.writer.commitBuf))
+
+//@ func (*Writer).sync
+//@   props C01 C10
+//@   requires w.wf != nil && WFits(w, 0) && w.info.BaseIndex <= 0x7fffffff00000000 && len(av(w.offsets)) <= 0x20000000
+//@   assigns w.writer.writeOffset, reslice(w.writer.commitBuf), w.wf.dirty, w.wf.dirLinked, w.commitIdx
+//@   site atomic-store(commitIdx) requires[C01.durable-before-visible] !w.wf.dirty && w.wf.dirLinked
+//@   ensures[C01.sync-ok] result == nil ==> !w.wf.dirty && w.wf.dirLinked
+//@   ensures result == nil ==> len(w.writer.commitBuf) == 0 && w.writer.writeOffset == old(w.writer.writeOffset) + uint32(old(len(w.writer.commitBuf)))
+//@   ensures result == nil ==> w.commitIdx == ite(len(av(w.offsets)) > 0, w.info.BaseIndex + uint64(len(av(w.offsets))) - 1, 0)
+//@   ensures[C10.failed-sync-not-published] result != nil ==> w.commitIdx == old(w.commitIdx)
+
+//@ func (*Writer).appendCommit
+//@   props C01 C09 C10
+//@   requires w.wf != nil && WFits(w, 8) && w.info.BaseIndex <= 0x7fffffff00000000 && len(av(w.offsets)) <= 0x20000000
+//@   assigns w.writer.writeOffset, w.writer.commitBuf, w.writer.crc, w.wf.dirty, w.wf.dirLinked, w.commitIdx, w.writer.commitBuf[len(w.writer.commitBuf):cap(w.writer.commitBuf)]
+//@   ensures[C01.commit-synced] result == nil ==> !w.wf.dirty && w.wf.dirLinked
+//@   ensures result == nil ==> w.writer.crc == 0 && len(w.writer.commitBuf) == 0 && w.writer.writeOffset == old(w.writer.writeOffset) + uint32(old(len(w.writer.commitBuf))) + 8
+//@   ensures result == nil ==> w.commitIdx == ite(len(av(w.offsets)) > 0, w.info.BaseIndex + uint64(len(av(w.offsets))) - 1, 0)
+//@   ensures[C10.failed-commit-not-published] result != nil ==> w.commitIdx == old(w.commitIdx)
+
+//@ func (*Writer).appendEntry
+//@   props C05 C09 C10 C15
+//@   requires len(av(w.offsets)) < 0x20000000 && w.info.BaseIndex <= 0x7fffffff00000000
+//@   requires len(e.Data) <= 0xffffffff && WFits(w, len(e.Data) + 15)
+//@   assigns w.writer.commitBuf, w.writer.crc, w.offsets, w.writer.commitBuf[len(w.writer.commitBuf):cap(w.writer.commitBuf)], av(w.offsets)[len(av(w.offsets)):cap(av(w.offsets))]
+//@   ensures[C15.too-big-refused] len(e.Data) > MaxEntrySize ==> result != nil
+//@   ensures[C05.segment-monotone] e.Index != w.info.BaseIndex + uint64(old(len(av(w.offsets)))) ==> result != nil
+//@   ensures[C10.appendentry-noop-on-error] result != nil ==> sameslice(w.writer.commitBuf, old(w.writer.commitBuf)) && w.writer.crc == old(w.writer.crc) && sameslice(av(w.offsets), old(av(w.offsets)))
+//@   ensures result == nil ==> e.Index == w.info.BaseIndex + uint64(old(len(av(w.offsets))))
+//@   ensures result == nil ==> len(av(w.offsets)) == old(len(av(w.offsets))) + 1
+//@   ensures[C09.entry-offset] result == nil ==> av(w.offsets)[old(len(av(w.offsets)))] == w.writer.writeOffset + uint32(old(len(w.writer.commitBuf)))
+//@   ensures result == nil ==> (forall j int :: {av(w.offsets)[j]} 0 <= j && j < old(len(av(w.offsets))) ==> av(w.offsets)[j] == old(av(w.offsets)[j]))
+//@   ensures result == nil ==> len(w.writer.commitBuf) == old(len(w.writer.commitBuf)) + 8 + len(e.Data) + padLen_spec(len(e.Data))
+//@   ensures result == nil ==> eqbytes(w.writer.commitBuf, 0, old(w.writer.commitBuf), 0, old(len(w.writer.commitBuf)))
+//@   ensures[C09.entry-frame] result == nil ==> w.writer.commitBuf[old(len(w.writer.commitBuf))] == FrameEntry
+//@      && LE32(w.writer.commitBuf, old(len(w.writer.commitBuf))+4) == uint32(len(e.Data))
+//@      && eqbytes(w.writer.commitBuf, old(len(w.writer.commitBuf))+8, e.Data, 0, len(e.Data))
+//@      && zero(w.writer.commitBuf, old(len(w.writer.commitBuf))+8+len(e.Data), len(w.writer.commitBuf))
+//@   ensures[C09.entry-crc] result == nil ==> w.writer.crc == crc(old(w.writer.crc), w.writer.commitBuf, old(len(w.writer.commitBuf)), len(w.writer.commitBuf))
